@@ -474,7 +474,36 @@ w_lazy(Ctx& ctx)
   const int nth = pick_threads(ctx, N);
   ctx.desc.add("workload", "lazy_tables").add("threads", nth);
   ctx.heartbeat("lazy");
-  auto fresh = [&]() { return dynamic_pointer_cast<ProjDataInfoCylindricalNoArcCorr>(vg::make_pdi(g.sc, g.ps)); };
+  // A freshly constructed object has its ring-difference tables built by the constructor; only the detector-pair tables are built at
+  // first use.  The public setters that invalidate the ring-difference tables are therefore called with the value the object
+  // already has (geometry unchanged, tables re-armed), so that their first use happens inside the parallel region as well - as
+  // for an object that was just narrowed by reduce_segment_range() / set_max_axial_pos_num() in an application.
+  const int rearm = static_cast<int>(ctx.rng.range(0, 4));
+  ctx.desc.add("rearm_ring_tables", rearm == 0 ? "no" : rearm == 1 ? "set_ring_spacing" : rearm == 2 ? "set_min_ring_difference" : rearm == 3 ? "set_max_axial_pos_num" : "reduce_segment_range");
+  auto fresh = [&]() {
+    auto p = dynamic_pointer_cast<ProjDataInfoCylindricalNoArcCorr>(vg::make_pdi(g.sc, g.ps));
+    if (p)
+      switch (rearm)
+        {
+        case 1:
+          p->set_ring_spacing(p->get_ring_spacing());
+          break;
+        case 2:
+          p->set_min_ring_difference(p->get_min_ring_difference(0), 0);
+          break;
+        case 3:
+          p->set_max_axial_pos_num(p->get_max_axial_pos_num(0), 0);
+          break;
+        case 4:
+          p->reduce_segment_range(p->get_min_segment_num(), p->get_max_segment_num());
+          break;
+        default:
+          break;
+        }
+    return p;
+  };
+  if (rearm)
+    ctx.count("lazy_cases_with_ring_tables_rearmed");
   // single-thread reference on its own fresh object
   omp_set_num_threads(1);
   hk::reset(ctx.seed + static_cast<uint64_t>(ctx.idx), false, 1);
